@@ -87,8 +87,10 @@ Inductive op :=
 | ORecv (p : nat) (hdrs : list hpair)        (* FProtocol.ReadRequestHeader, headers as decoded (last wins) *)
 | OReadResp (i : nat) (hdrs : list hpair).   (* FProtocol.ReadResponseHeader(ctx) *)
 
-(** Go's truncating division *)
-Definition quot_ms (ns : Z) : Z := Z.quot ns ns_per_ms.
+(** SetTimeout: Go's truncating division to whole milliseconds; a positive duration below one
+    millisecond is stored as 1 (it must not become 0 = "no deadline") *)
+Definition quot_ms (ns : Z) : Z :=
+  let q := Z.quot ns ns_per_ms in if (q =? 0) && (0 <? ns) then 1 else q.
 
 Definition without_key (k : bytes) (m : amap) : amap := remove_key k m.
 
